@@ -12,6 +12,8 @@ import Sio.Lemmas.PubSubSyncOps
 import Sio.Lemmas.PubSubRunOps
 import Sio.Lemmas.PubSubTokOps
 import Sio.Lemmas.PubSubDeliver
+import Sio.Lemmas.PubSubLinkedEmit
+import Sio.Lemmas.PubSubLinkedHist
 import Sio.Props.C03
 namespace Sio.C07
 open Sio.PubSub Sio.Rooms
@@ -100,34 +102,131 @@ theorem sync_equiv_frames (p : Placement) (ids : List HostId) (wo : HostId) (hnd
   obtain ⟨h1, h2, _⟩ := sync_equiv_frames_from p _ _ (sim_init p ids wo hnd hwo) ops (by rw [hids]; exact hops)
   exact ⟨h1 x, h2⟩
 
-/-- `sync_equiv`, as far as it is proved (hence `_partial`).  The full statement of DESIGN §5 is
-    `observe (runSync c ops) = observe (Single.run s ops)` with `observe` = per-client packet
-    sequences + application events (callback invocations AND disconnect handlers).  Proved here:
-    the per-client packet sequences (`seenBy`, ack ids abstracted to "asks for an acknowledgement")
-    and the disconnect handlers (`discEvents`), for every placement, every history, any number of
-    hosts.  NOT proved as an equality: that the *callback invocations* of the cluster equal those of
-    the single server.  What is proved about them instead, for every schedule (not only immediate
-    delivery): `callback_once` — at most one invocation, on the issuing host.  What is checked on
-    every run instead: `appEvents (runSync …) = appEvents (Single.run …)` is evaluated by the driver
-    on every generated mode-A history (and on the real servers against one real server), and holds
-    on the concrete history above by `rfl`.  Also proved: `callback_exactly_once_when_linked` (the
-    ACK of an event whose relay entry is linked to the issuer's user entry, plus a drain, invokes
-    exactly that callback on the issuer with the client's arguments) and `callback_args_from_ack` /
-    `callback_args_relayed` (the arguments are never altered on the way).
-    REMAINING OBLIGATION (exactly): an invariant `Linked c s` of the drained run, preserved by every
-    operation + drain under `OpsOk`, fresh session ids and "a callback emit addresses one client by
-    its own session id, through a host", saying: `c.asked.map fst = s.asked.map fst`, and for every
-    position `j` whose client is connected, with `c.asked[j] = (sid, ic)`, `s.asked[j] = (sid, is)`:
-    `s.srv.cbs sid is = some (user t)` iff the host of `sid` has `cbs sid ic = some (relay (some o) k n
-    id0)` and host `o` has `cbs k id0 = some (user t)` (else both are `none`).  Its preservation needs
-    the bounds `cbs k i ≠ none → i ≤ ctr k` and `asked ids ≤ ctr` (no revival of consumed ids), on
-    both sides.  Given `Linked`, the per-step equality of callback invocations is
-    `callback_exactly_once_when_linked` on the cluster side and `trigger_user` on the single side. -/
+/-- `sync_equiv` without the hypotheses on the history that the callback part needs (hence
+    `_partial`): the per-client packet sequences (`seenBy`, ack ids abstracted to "asks for an
+    acknowledgement") and the disconnect handlers (`discEvents`) of the cluster equal those of the
+    single server, for every placement, every history with `OpsOk` alone, any number of hosts.
+    The full statement of DESIGN §5 — `observe (runSync c ops) = observe (Single.run s ops)` with
+    `observe` = per-client packet sequences + application events (callback invocations AND
+    disconnect handlers) — is `sync_equiv` below; it needs `HistOk` in addition (fresh session ids;
+    an emit with a callback addresses a personal room with nobody but its owner in it), without
+    which the callback part is false (see `aliasOps`).  It is proved with the invariant
+    `Sio.PubSub.Linked` between the drained cluster and the single server: same number of asks per
+    client; for every outstanding ask of a connected client the single server's user callback entry
+    exists iff the client's host has the relay entry AND the issuing host has the user entry it
+    points at; `cbs k i ≠ none → i ≤ ctr k` and `asked ids ≤ ctr` on both sides
+    (`Sio/Lemmas/PubSubLinked*.lean`, one lemma per operation kind, `linked_step`).  About callbacks
+    under ANY schedule (not only immediate delivery) see `callback_once`,
+    `callback_exactly_once_when_linked`, `callback_args_from_ack` / `callback_args_relayed`. -/
 theorem sync_equiv_partial (p : Placement) (ids : List HostId) (wo : HostId) (hnd : ids.Nodup)
     (hwo : wo ∉ ids) (ops : List PubSub.Op) (hops : OpsOk p ids ops) (x : Sid) :
     seenBy x (runSync (Cluster.init ids wo) ops).2 = seenBy x (Single.run Single.init ops).2 ∧
     discEvents (runSync (Cluster.init ids wo) ops).2 = discEvents (Single.run Single.init ops).2 :=
   sync_equiv_frames p ids wo hnd hwo ops hops x
+
+
+/-! ### sync_equiv — packets AND application events -/
+
+theorem linked_init (home : Sid → HostId) (ids : List HostId) (wo : HostId) :
+    Linked home (Cluster.init ids wo) Single.init := by
+  refine ⟨?_, ?_, fun _ => rfl, ?_, ?_, ?_⟩
+  · intro h hh
+    simp only [Cluster.init, List.mem_map] at hh
+    obtain ⟨i, _, rfl⟩ := hh
+    rfl
+  · intro e₁ h1; cases h1
+  · intro h hh k i hne
+    simp only [Cluster.init, List.mem_map] at hh
+    obtain ⟨j, _, rfl⟩ := hh
+    exact absurd rfl hne
+  · intro k i hne; exact absurd rfl hne
+  · rintro x ⟨e, he, _⟩; cases he
+
+/-- From any pair of related states (`Sim`: the room tables of the hosts partition the single
+    server's; `Linked`: the callback tables are linked, every host has drained), for every history
+    whose operations are each followed by a drain pass and that respects `HistOk` on the way. -/
+theorem sync_equiv_from (p : Placement) (c : Cluster) (s : Single)
+    (hs : Sim p.home p.ehome c s) (hl : Linked p.home c s) (ops : List PubSub.Op)
+    (hops : OpsOk p (c.hosts.map Host.id) ops) (hh : HistOk s ops) :
+    (∀ x, seenBy x (runSync c ops).2 = seenBy x (Single.run s ops).2) ∧
+    appEvents (runSync c ops).2 = appEvents (Single.run s ops).2 ∧
+    Sim p.home p.ehome (runSync c ops).1 (Single.run s ops).1 ∧
+    Linked p.home (runSync c ops).1 (Single.run s ops).1 := by
+  induction ops generalizing c s with
+  | nil => exact ⟨fun _ => rfl, rfl, hs, hl⟩
+  | cons op ops ih =>
+    have hop : OpOk p.home p.ehome (c.views.map Prod.fst) op := by
+      rw [views_fst]; exact hops op List.mem_cons_self
+    obtain ⟨h1, h2, h3, h4⟩ := sim_step hs op hop
+    obtain ⟨l1, l2, l3⟩ := linked_step hs hl op hop hh.1
+    have hops' : OpsOk p ((step (step c op).1 .drain).1.hosts.map Host.id) ops := by
+      rw [h4]; exact fun o ho => hops o (List.mem_cons_of_mem _ ho)
+    obtain ⟨i1, i2, i3, i4⟩ := ih _ _ h1 l1 hops' hh.2
+    refine ⟨?_, ?_, i3, i4⟩
+    · intro x
+      show seenBy x ((step c op).2 ++ (step (step c op).1 .drain).2 ++ _) = seenBy x ((s.step op).2 ++ _)
+      rw [seenBy_append, seenBy_append x (s.step op).2, h2 x, i1 x]
+    · show appEvents ((step c op).2 ++ (step (step c op).1 .drain).2 ++ _) = appEvents ((s.step op).2 ++ _)
+      rw [appEvents_append, appEvents_append (s.step op).2, appEvents_eq h3 l2 l3, i2]
+
+/-- **A pub/sub cluster with immediate delivery behaves like one server holding all the clients.**
+    For every placement of clients (and transports) on hosts, any number of hosts with distinct ids,
+    a write-only manager with its own id, and every history `ops` — `connect`, `enter_room`,
+    `leave_room`, `close_room`, `emit` through a host or through the write-only manager (any target,
+    any `skip_sid`, with or without a callback), `disconnect`, client ACKs by position (any position,
+    also out of range, repeated, of a client that is gone), each operation followed by one drain
+    pass — the cluster and the single server are observably equal:
+
+    * every client receives the same packets in the same order (`seenBy`; ack ids are abstracted to
+      "asks for an acknowledgement" — the ids themselves differ, by design: the cluster's client is
+      handed the id of the relay entry on its own host);
+    * the application sees the same events in the same order (`appEvents`): every callback
+      invocation with its token and the arguments the client sent, and every disconnect handler.
+
+    Hypotheses: `OpsOk` (the operations name existing hosts, a `connect` happens where the placement
+    says, `to=[]` is no target, an emit with a callback goes through a host and names one room) and
+    `HistOk` (decidable, judged on the run of the reference server): session ids are fresh — a
+    `connect` brings an id that is not in use and was never asked anything — and, at the moment of
+    an emit with a callback, nobody but the client of that name is in the addressed (personal) room
+    ("callback functions can only be used when addressing an individual client").  Both are what the
+    quantifier of C07 says (`harness/props/c07.py: in_domain`); without the second the statement is
+    false (one user callback on the cluster, one per recipient on the single server). -/
+theorem sync_equiv (p : Placement) (ids : List HostId) (wo : HostId) (hnd : ids.Nodup)
+    (hwo : wo ∉ ids) (ops : List PubSub.Op) (hops : OpsOk p ids ops) (hh : HistOk Single.init ops) :
+    (∀ x, seenBy x (runSync (Cluster.init ids wo) ops).2 = seenBy x (Single.run Single.init ops).2) ∧
+    appEvents (runSync (Cluster.init ids wo) ops).2 = appEvents (Single.run Single.init ops).2 := by
+  have hids : (Cluster.init ids wo).hosts.map Host.id = ids := by
+    simp only [Cluster.init, List.map_map]
+    exact List.map_id' ids
+  obtain ⟨h1, h2, _, _⟩ := sync_equiv_from p _ _ (sim_init p ids wo hnd hwo) (linked_init p.home ids wo) ops
+    (by rw [hids]; exact hops) hh
+  exact ⟨h1, h2⟩
+
+/-- The same with the freshness of session ids stated on the history itself: the session ids of the
+    `connect`s are pairwise distinct (`connSids ops` has no duplicates), and (`CbPersonal`, judged on
+    the run of the reference server, decidable) at the moment of every emit with a callback nobody
+    but the client of that name is in the addressed personal room. -/
+theorem sync_equiv_fresh (p : Placement) (ids : List HostId) (wo : HostId) (hnd : ids.Nodup)
+    (hwo : wo ∉ ids) (ops : List PubSub.Op) (hops : OpsOk p ids ops) (hfresh : (connSids ops).Nodup)
+    (hcb : CbPersonal Single.init ops) :
+    (∀ x, seenBy x (runSync (Cluster.init ids wo) ops).2 = seenBy x (Single.run Single.init ops).2) ∧
+    appEvents (runSync (Cluster.init ids wo) ops).2 = appEvents (Single.run Single.init ops).2 :=
+  sync_equiv p ids wo hnd hwo ops hops
+    (histOk_of_fresh Single.init Inv.nil ops hfresh
+      (fun _ _ => ⟨fun _ he => (nomatch he), fun _ ha => (nomatch ha)⟩) hcb)
+
+/-- ... in particular the callback invocations alone (token, arguments), in order -/
+theorem sync_equiv_callbacks (p : Placement) (ids : List HostId) (wo : HostId) (hnd : ids.Nodup)
+    (hwo : wo ∉ ids) (ops : List PubSub.Op) (hops : OpsOk p ids ops) (hh : HistOk Single.init ops) :
+    cbEvents (runSync (Cluster.init ids wo) ops).2 = cbEvents (Single.run Single.init ops).2 := by
+  have h := (sync_equiv p ids wo hnd hwo ops hops hh).2
+  have key : ∀ outs : List Out, cbEvents outs =
+      (appEvents outs).filterMap (fun e => match e with | .callback t a => some (t, a) | _ => none) := by
+    intro outs
+    induction outs with
+    | nil => rfl
+    | cons o outs ih => cases o <;> simp [cbEvents, appEvents, ih]
+  rw [key, key, h]
 
 /-! ### a concrete history (non-vacuity) -/
 
@@ -155,11 +254,16 @@ def demoOps : List PubSub.Op :=
     .ack nsR sA 0 [.int 9],
     .disconnect hA nsR sB ]
 
-example : OpsOk demoPlacement [hA, hB] demoOps := by
+theorem demoOps_ok : OpsOk demoPlacement [hA, hB] demoOps := by
   intro op hop
   simp only [demoOps, List.mem_cons, List.not_mem_nil, or_false] at hop
   rcases hop with rfl | rfl | rfl | rfl | rfl | rfl | rfl | rfl | rfl <;>
     simp [OpOk, demoPlacement, Target.ok] <;> decide
+
+-- the history respects `HistOk`: fresh session ids, and `sA` is alone in its personal room when
+-- host B emits to it with callback 7
+theorem demoOps_hist : HistOk Single.init demoOps := by decide
+example : (connSids demoOps).Nodup ∧ CbPersonal Single.init demoOps := by decide
 
 -- what the two clients see, and that the callback ran on the issuing host B with the client's 9
 example : seenBy sA (runSync (Cluster.init [hA, hB] hW) demoOps).2 =
@@ -171,6 +275,23 @@ example : (runSync (Cluster.init [hA, hB] hW) demoOps).2.filter isCallbackOut =
     [.callback hB 7 [.int 9]] := by rfl
 example : appEvents (runSync (Cluster.init [hA, hB] hW) demoOps).2 =
     appEvents (Single.run Single.init demoOps).2 := by rfl
+-- `sync_equiv` applies to it, and what it equates is not empty: the callback with the client's 9,
+-- then the disconnect handler of `sB`
+example : (∀ x, seenBy x (runSync (Cluster.init [hA, hB] hW) demoOps).2 =
+      seenBy x (Single.run Single.init demoOps).2) ∧
+    appEvents (runSync (Cluster.init [hA, hB] hW) demoOps).2 = appEvents (Single.run Single.init demoOps).2 :=
+  sync_equiv demoPlacement [hA, hB] hW (by decide) (by decide) demoOps demoOps_ok demoOps_hist
+example : appEvents (Single.run Single.init demoOps).2 =
+    [.callback 7 [.int 9], .disconnected sB nsR] := by rfl
+-- a history outside `HistOk` on which the statement is indeed false: `sB` has entered the personal
+-- room of `sA`, both acknowledge — the single server calls back twice, the cluster once
+def aliasOps : List PubSub.Op :=
+  [ .connect hA nsR tA sA, .connect hB nsR tB sB, .enter hA nsR sB sA,
+    .emit (some hA) ['e'] .none nsR (.one sA) .none (some 7),
+    .ack nsR sA 0 [.int 1], .ack nsR sB 0 [.int 2] ]
+example : ¬ HistOk Single.init aliasOps := by decide
+example : cbEvents (Single.run Single.init aliasOps).2 = [(7, [.int 1]), (7, [.int 2])] := by rfl
+example : cbEvents (runSync (Cluster.init [hA, hB] hW) aliasOps).2 = [(7, [.int 1])] := by rfl
 
 /-! ## eligible — who receives an emit when a host applies it -/
 
